@@ -310,6 +310,14 @@ class IsotropicOdeTs0(ssm_impl_api.AbstractOde):
 
         bias = IsotropicNormal.from_dirac(fx, damp=damp)
 
+        # Array indexing clamps out-of-bounds indices silently, so check them here
+        num_tcoeffs = rv.mean_flat.shape[0]
+        if max(self.ode.tcoeff_indices_output) >= num_tcoeffs:
+            msg = "The ODE constrains Taylor coefficients that the state does not carry."
+            msg += f" Expected: indices < {num_tcoeffs}."
+            msg += f" Received: {self.ode.tcoeff_indices_output}."
+            raise ValueError(msg)
+
         def derivative_selector(s):
             return s[np.asarray(self.ode.tcoeff_indices_output)]
 
